@@ -2,7 +2,7 @@
 import re
 
 from ..facts import AnalysisGap, callee, callee_generic, ctor_of, local_id_of, local_of, pat_bindings, strip, walk
-from .. import hq
+from .. import hq, sym
 
 EXPLANATION = (
     "FLOW-MONO: in the Verify arm of main the verdict flag is a bool initialised `true` and written only inside the result loop; the loop body "
@@ -490,10 +490,18 @@ def rule_names(ctx):
                     "name languages %s and %s share no string" % (keys[i], keys[j]))
     # outline names use both loop indices
     ae = fx.fn("decompose", impl_self="verifying::task::external_equivalence::AssembledExternalEquivalenceTask")
-    for n in walk(ae["body"]):
-        if n.get("mac") == "format" and "mac_src" in n and "outline" in n["mac_src"]:
-            t = hq.macro_template(n["mac_src"])
-            ctx.add("NAMES", "outline-indices:%s" % t, "{i}" in t and "{j}" in t, ctx.site(ae, n), "outline problem names carry both enumerate() indices")
+    # decided on the evaluated names: `<direction>_outline_<index of the lemma>_<index of the conjecture within the lemma>`
+    from .. import comp as _comp
+    _comp.use(fx)
+    SELF_ = ("param", "$self")
+    cv = _comp.canon(sym.Eval(fx, inline_depth=0).function(ae, [SELF_]))
+    fmts = {x for x in sym.subterms(cv) if isinstance(x, tuple) and x[:1] == ("format",) and len(x) == 3 and isinstance(x[1], str) and "outline" in x[1]}
+    for d_ in ("forward", "backward"):
+        LEM = ("fieldof", ("fieldof", SELF_, "proof_outline"), d_ + "_lemmas")
+        want = ("format", d_ + "_outline_{}_{}", (("idx", (LEM,)), ("idx", (("fieldof", ("at", LEM), "conjectures"),))))
+        mine = [x for x in fmts if x[1].startswith(d_ + "_outline")]
+        ctx.add("NAMES", "outline-indices:%s" % want[1], mine == [want], ctx.site(ae), "outline problem names carry both enumerate() indices: the lemma's and the conjecture's",
+                construct=None if mine == [want] else sorted(map(repr, mine)))
 
 
 WORKER_TABLE = {
